@@ -57,8 +57,11 @@ func (g *Gen) doCall(cc *ssa.CallCommon, pos token.Pos, name string) []string {
 		return g.builtin(b, cc, pos, name)
 	}
 	label := g.c.calleeLabel(cc)
-	g.callOrd[label]++
-	n := g.callOrd[label]
+	n := g.callOrdinal[cc]
+	if n == 0 {
+		g.callOrd[label]++
+		n = 1000 + g.callOrd[label]
+	}
 
 	// argument terms (receiver first for invoke)
 	var args []TV
@@ -240,7 +243,7 @@ func (g *Gen) applyContract(fc *FuncContract, names []string, args []TV, cc *ssa
 		envPost.results = []TV{}
 	}
 	for _, cl := range fc.Clauses {
-		if cl.Kind != "ensures" {
+		if cl.Kind != "ensures" || strings.HasPrefix(cl.Label, "local") {
 			continue
 		}
 		t, err := envPost.evalBool(cl.E)
@@ -477,9 +480,15 @@ func (g *Gen) copyOp(cc *ssa.CallCommon) string {
 // ---------- postconditions and frames ----------
 
 func (g *Gen) checkPost(res []string, pos token.Pos) {
-	g.callOrd["ret"]++
-	rn := g.callOrd["ret"]
+	rn := g.retOrdinal[g.curRet]
+	if rn == 0 {
+		g.callOrd["ret"]++
+		rn = 1000 + g.callOrd["ret"]
+	}
 	env := g.funcEnv(g.st, g.entry, res)
+	// local variables of the function are nameable in `ensures [local...]` clauses (resolved at
+	// the return point); such clauses are checked here and not assumed by callers
+	env.point, env.seqMax = g.cur, g.seq+1
 	if env.results == nil {
 		env.results = []TV{}
 	}
@@ -491,6 +500,9 @@ func (g *Gen) checkPost(res []string, pos token.Pos) {
 		k++
 		t, err := env.evalBool(cl.E)
 		if err != nil {
+			if strings.HasPrefix(cl.Label, "local") && strings.Contains(err.Error(), "unknown name") {
+				continue // the local variable is not in scope at this return
+			}
 			g.errorf("%s: ensures #%d: %v", g.fnLabel(), k, err)
 			continue
 		}
